@@ -1167,7 +1167,7 @@ def check_arrays(ctx, case=None):
         if kw.get('upgrade_flags', True):
             ci = _upgrade_flags(ci, view, cb, stream)
         got = [_entries(_align_chunk_info(ci))]
-    except (KeyError, ValueError) as e:
+    except Exception as e:   # noqa
         got = type(e).__name__
     # (b) the data source itself, metadata only: the number of synthesised timestamps
     try:
@@ -1175,7 +1175,7 @@ def check_arrays(ctx, case=None):
         n_ts = int(len(src.timestamps))
         if not np.array_equal(src.timestamps, T0 + INT_TIME * np.arange(n_ts)):
             n_ts = 'wrong_timestamps'
-    except (KeyError, ValueError) as e:
+    except Exception as e:   # noqa
         n_ts = type(e).__name__
     if isinstance(got, list):
         got.append(n_ts)
@@ -1251,7 +1251,14 @@ def check_align(ctx, arrays=None):
     for i, (chunks, tail) in enumerate(arrays):
         info['a%d' % i] = {'prefix': 'p', 'dtype': '<u1', 'shape': (sum(chunks),) + tuple(tail),
                           'chunks': (tuple(chunks),) + tuple((n,) for n in tail)}
-    out = _align_chunk_info({k: dict(v) for k, v in info.items()})
+    case = dict(arrays=arrays)
+    try:
+        out = _align_chunk_info({k: dict(v) for k, v in info.items()})
+    except Exception as e:   # noqa
+        ctx.disagree('what=align;arrays=%d;symptom=raises:%s' % (len(arrays), type(e).__name__), case, repr(e)[:200], None,
+                     '_align_chunk_info raises on a legal chunk info')
+        ctx.note_case(('align', repr(arrays)))
+        return
     got = [[list(out[k]['chunks'][0]), list(out[k]['shape']), [list(c) for c in out[k]['chunks'][1:]]] for k in sorted(info)]
     mx = max(sum(c) for c, _ in arrays)
     exp = [[list(c) + [1] * (mx - sum(c)), [mx] + list(t), [[n] for n in t]] for c, t in arrays]
